@@ -31,6 +31,28 @@ func (c *Ctx) lowered(v ssa.Value, d int) bool {
 		return false
 	}
 	switch x := v.(type) {
+	case *ssa.Parameter:
+		// a name handed to a private helper (`setNamed(name, …)`): lower-cased at every call site
+		h := x.Parent()
+		if !c.P.PrivateHelper(h) {
+			return false
+		}
+		idx := -1
+		for i, q := range h.Params {
+			if q == x {
+				idx = i
+			}
+		}
+		sites := c.P.Callers(h)
+		if idx < 0 || len(sites) == 0 {
+			return false
+		}
+		for _, s := range sites {
+			if idx >= len(s.Common().Args) || !c.lowered(s.Common().Args[idx], d+1) {
+				return false
+			}
+		}
+		return true
 	case *ssa.Const:
 		s, ok := core.ConstString(x)
 		return ok && s == strings.ToLower(s)
@@ -329,6 +351,14 @@ func runOpts(c *Ctx) {
 					if strings.HasPrefix(nm, "(reflect.Value).") && len(w.Common().Args) > 0 && w.Common().Args[0] == rv {
 						blk, what = w.Block(), core.ShortCallee(nm)
 					}
+					// handed to a private helper that records it (uses its Type, stores it): the hand-over is the use
+					if hcal := w.Common().StaticCallee(); hcal != nil && p.PrivateHelper(hcal) && !c.isValidatingValueOf(hcal) {
+						for _, a := range w.Common().Args {
+							if a == rv {
+								blk, what = w.Block(), "handed to "+core.FuncName(hcal)
+							}
+						}
+					}
 				case *ssa.MapUpdate:
 					if w.Value == rv {
 						blk, what = w.Block(), "stored as an option value"
@@ -364,11 +394,16 @@ func runOpts(c *Ctx) {
 				}
 			}
 			// an invalid value skips only itself: inside a loop over several values the invalid branch must not leave the function
+			var validity []ssa.Value
 			for _, u := range *rv.Referrers() {
-				vc, isC := u.(*ssa.Call)
-				if !isC || core.CalleeName(vc.Common()) != core.RVIsValid {
-					continue
+				if vc, isC := u.(*ssa.Call); isC && core.CalleeName(vc.Common()) == core.RVIsValid {
+					validity = append(validity, vc)
 				}
+			}
+			if helperOK != nil {
+				validity = append(validity, helperOK) // `rv, ok := argValue(v)`: ok is the validity
+			}
+			for _, vc := range validity {
 				for _, r2 := range *vc.Referrers() {
 					iff, isIf := r2.(*ssa.If)
 					if !isIf {
